@@ -30,7 +30,11 @@ pub fn prec(a: Expression) -> Expression {
     Expression::Operator(Rc::new(Operator::Precedence(a)))
 }
 
-pub const NAME_POOL: &[&str] = &["a", "b", "file1.txt", "FILE1.TXT", "*.txt", "f?le*", "[a-f]*", "data", "Data", "*", "x.y", "sub"];
+pub const NAME_POOL: &[&str] = &[
+    "a", "b", "file1.txt", "FILE1.TXT", "*.txt", "f?le*", "[a-f]*", "data", "Data", "*", "x.y", "sub",
+    // names and patterns people special-case: hidden files, match-everything spellings, well-known names
+    ".*", ".hidden", "*.*", "?", "**", "[!a]*", "core", "lost+found", "Makefile", "*~", ".", "..", "-", "*.o", "*.tar.gz",
+];
 pub const FILE_POOL: &[&str] = &["out.txt", "a", "b", "c", "list.out", "dir/f", "./a", "A", "a/", " b", "/dev/stdout", "-", "/dev/stderr", "stdout"];
 
 /// Numbers with a meaning to people rather than to machines (decimal round numbers, unit sizes, well-known
